@@ -239,6 +239,10 @@ class Executor:
         if m:
             lo, hi = RANGES[m.group(1)]
             return IntVal(lo if m.group(2) == 'MIN' else hi)
+        m = re.match(r'^const core::num::<impl (i128|u128|i64|u64|i32|u32|u8)>::(MIN|MAX)$', s)
+        if m:
+            lo, hi = RANGES[m.group(1)]
+            return IntVal(lo if m.group(2) == 'MIN' else hi)
         if s == 'const true':
             return BoolVal(True)
         if s == 'const false':
